@@ -488,6 +488,14 @@ def run(ctx):
         elif d is not None:
             mismatches.append({"case": c, "detail": d})
 
+    # distinct kinds of failure first (the driver reports the first few)
+    seen, first, rest = set(), [], []
+    for f in oracle_fail:
+        kd = f["signature"]["kind"]
+        (rest if kd in seen else first).append(f)
+        seen.add(kd)
+    oracle_fail = first + rest
+
     def nontrivial(c, r):
         return r["status"] == "raised" or sum(sum(row) for row in r["out"]) >= 2
 
